@@ -73,6 +73,8 @@ type c11vOp struct {
 	// vhost: what a status list URL serves
 	URL      string `json:"url,omitempty"`
 	HostKind string `json:"hostkind,omitempty"` // ok | badsig | fail
+	// StoreFault: the revocation store cannot be read during this verification
+	StoreFault bool `json:"storefault,omitempty"`
 	Bits     []int  `json:"bits,omitempty"`
 }
 
@@ -141,7 +143,21 @@ type c11vSignerKey struct{}
 
 // ---------- world
 
+// c11vStore is the real leia store; reads can be made to fail
+type c11vStore struct {
+	Store
+	readFault bool
+}
+
+func (s *c11vStore) GetRevocations(id ssi.URI) ([]*credential.Revocation, error) {
+	if s.readFault {
+		return nil, errors.New("verif: revocation store unavailable")
+	}
+	return s.Store.GetRevocations(id)
+}
+
 type c11vWorld struct {
+	fstore *c11vStore
 	t     *testing.T
 	v     *verifier
 	keys  *c11vKeys
@@ -214,7 +230,8 @@ func (w *c11vWorld) reset() {
 	db := orm.NewTestDatabase(w.t)
 	trustConfig := trust.NewConfig(path.Join(w.dir, fmt.Sprintf("trust-%d.yaml", w.n)))
 	sl := revocation.NewStatusList2021(db, w, "https://verifier.example")
-	w.v = NewVerifier(store, nil, w.keys, w.ld, trustConfig, sl).(*verifier)
+	w.fstore = &c11vStore{Store: store}
+	w.v = NewVerifier(w.fstore, nil, w.keys, w.ld, trustConfig, sl).(*verifier)
 	sl.VerifySignature = c11vFakeVerifySignature // status lists of this harness carry a fake proof
 	w.hosts = map[string]c11vOp{}
 }
@@ -277,6 +294,8 @@ func c11vClass(err error) string {
 		return "err:validation:date"
 	case strings.Contains(err.Error(), "'proof' is required"):
 		return "err:validation:proof"
+	case strings.Contains(err.Error(), "verif: revocation store unavailable"):
+		return "err:store"
 	case strings.Contains(err.Error(), "credential ID must start with issuer"), strings.Contains(err.Error(), "'ID' is required"):
 		return "err:validation"
 	}
@@ -337,7 +356,10 @@ func (w *c11vWorld) exec(op c11vOp) (line string) {
 		if err != nil {
 			return "vverify err:build:" + err.Error()
 		}
-		return "vverify " + c11vClass(w.v.Verify(*cred, true, false, nil))
+		w.fstore.readFault = op.StoreFault
+		err = w.v.Verify(*cred, true, false, nil)
+		w.fstore.readFault = false
+		return "vverify " + c11vClass(err)
 	case "vhost":
 		w.hosts[op.URL] = op
 		return "vhost"
@@ -430,6 +452,7 @@ func (g *c11vGen) next() c11vOp {
 		if r.Intn(30) == 0 {
 			op.ID = ""
 		}
+		op.StoreFault = r.Intn(6) == 0
 		if r.Intn(6) == 0 {
 			op.Kind = "nutsorg"
 		}
